@@ -164,6 +164,13 @@ func vndConcretize(x int) int { return x }
 // to completion at its spawn point, so there is nothing to wait for).
 func vndSettle() { time.Sleep(300 * time.Millisecond) }
 
+// vndLoopPhis reports how many values the loops of the named function carry from one iteration to the next
+// (phi nodes at loop headers in its SSA form); natively unknown (-1).
+func vndLoopPhis(fn string) int { return -1 }
+
+// vndRequire: a structural premise of an argument made in DESIGN.md; if it does not hold the check is inconclusive.
+func vndRequire(c bool, why string) {}
+
 // vndYield: a short pause (well below the clients' read timeout of the harnesses) that lets goroutines react.
 func vndYield() { time.Sleep(15 * time.Millisecond) }
 
@@ -276,6 +283,14 @@ func (x *Exec) vnd(name string, args []Value) Value {
 	case "vndFloat32bits":
 		return args[0]
 	case "vndSettle", "vndYield":
+		return nil
+	case "vndLoopPhis":
+		return x.i64(x.eng.loopPhis(strArg(args[0])))
+	case "vndRequire":
+		t := args[0].(*term.Term)
+		if !t.IsTrue() {
+			panic(pathEnd{"unsupported", "structural premise does not hold: " + strArg(args[1])})
+		}
 		return nil
 	case "vndConcretize":
 		return x.i64(int(x.concretize(args[0].(*term.Term), "vndConcretize")))
